@@ -162,6 +162,7 @@ P1 = [
     # PikeVM.SearchWithCapturesInSpan with copy-on-write slots; fix 34ebcaa)
     (r"(a)+c$", "UseReverseAnchored", "q cap"),
     (r"[a-z]+(\d)*x\.tx", "UseReverseSuffix", "q cap"),
+    (r"\b[ab]+\b", "UseNFA", "q"),                       # NFA strategy + pooled backtracker, no prefilter (seeded change C07-2)
     (r".*co[0-9]+", "UseReverseInner", "q"),             # greedy prefix over a later inner literal (fix cba9df1)
     (r".+a", "UseReverseSuffix", "q cap"),               # guard of the limited reverse search (fix bb986bd)
     (r"[a-z]+a", "UseReverseSuffix", "q"),
